@@ -550,6 +550,7 @@ def run(ctx, rep):
     scope_discipline(F, rep)
     scope_record(F, rep)
     const_declaration_over_existing_name(F, rep)
+    existence_is_asked_function_wide(F, rep)
     scope_walk(F, rep)
     const_flag(F, rep)
     member_names_are_not_variables(F, rep)
@@ -979,3 +980,37 @@ def const_declaration_over_existing_name(F, rep, rule="C10.guard"):
         rep.ob(rule, "the declaration is refused when that test fails", "violated" if (bad or not sws) else "ok",
                ("no branch on the result" if not sws else ("a successful return is reachable from the failing edge of bb%s" % bad if bad else "")), c.span, fn=pa.path,
                key="%s|const-over-existing|refused#%d" % (rule, i))
+
+
+
+def existence_is_asked_function_wide(F, rep, rule="C10.guard"):
+    """At run time `store` writes the variable of that name wherever it lives between the current block and the function's own frame
+    (Stack::register_variable_flags walks the block frames): a name is one variable per function.  The compiler's "does this name exist
+    already?" - on which the type-compatibility and the const test of a declaration hang - therefore has to look at the whole function
+    (has_name_been_mapped_in_function; for `modify`, the capture lookup), not at the innermost block.  Per declaration parser: the
+    previous-binding value it hands to Parser::assignment derives from those lookups only."""
+    WIDE = ("compiler::parser::AssocFileData::has_name_been_mapped_in_function", "compiler::parser::AssocFileData::get_dependency_flags_from_name")
+    thr = rules.TRANSPARENT | {rules.TRY_BRANCH, "core::option::Option::map", "core::option::Option::cloned", "core::option::Option::copied",
+                               "alloc::borrow::ToOwned::to_owned", "core::clone::Clone::clone", "core::option::Option::or", "core::option::Option::or_else"}
+    n = 0
+    for sub in ("assignment_no_type", "assignment_type"):
+        g = need(F, "compiler::parser::Parser::" + sub)
+        for b in rules.ok_return_blocks(g):
+            # Ok((assignment, previous)): the tuple's second component
+            for bi, si, dst, rv, st in g.assigns():
+                if bi != b or not ("agg" in rv and rv["agg"].get("v") == "Ok"):
+                    continue
+                tl = op_local(rv["ops"][0])
+                for d in (rules.defs_of(g, tl) if tl is not None else []):
+                    if d[0] == "assign" and "agg" in d[4] and d[4]["agg"]["k"] == "tuple" and len(d[4]["ops"]) == 2:
+                        pl = op_local(d[4]["ops"][1])
+                        oc = rules.origin_calls(g, pl, transparent=thr) if pl is not None else []
+                        n += 1
+                        narrow = [x for x in oc if not x.matches(WIDE)]
+                        okk = bool(oc) and not narrow
+                        rep.ob(rule, "%s: whether the declared name exists already is asked of the whole function" % sub, "ok" if okk else "violated",
+                               "" if okk else ("the previous binding comes from %s: a typed declaration inside a block is not checked against the variable of the "
+                                               "enclosing block it overwrites (`total: int = 10` / `if c { total: str = \"many\" }`)"
+                                               % (sorted({mir.short(mir.strip_generics(x.callee())) for x in narrow}) or "no lookup")),
+                               st.get("sp"), fn=g.path, key="%s|lookup-extent|%s" % (rule, sub))
+    rep.floor(rule + " previous-binding results of the declaration parsers", n, 2)
